@@ -58,6 +58,14 @@ pub fn make_env(cfg: &Cfg) -> Env {
             }
         }
     }
+    // one binary serves both back-ends' worlds
+    for flavour in ["a", "b"] {
+        let p = cfg.build_dir.join(format!("target-both-{}/debug/simhost", flavour));
+        if p.exists() && !host_bins.iter().any(|x: &((Backend, Build), PathBuf)| x.0 .1 == Build::Both) {
+            host_bins.push(((Backend::Syn1, Build::Both), p.clone()));
+            host_bins.push(((Backend::Syn2, Build::Both), p));
+        }
+    }
     Env { host_bins, shim: cfg.build_dir.join("simhost.so"), aslr_off: ASLR_OFF.load(Ordering::SeqCst) == 1, fs_dir: cfg.build_dir.join("simfs") }
 }
 
